@@ -2,6 +2,9 @@ package main
 
 import (
 	"fmt"
+	"runtime/debug"
+
+	"verifharness/engine"
 	"reflect"
 	"sort"
 	"strings"
@@ -479,6 +482,15 @@ func (s *setSys) check(o vm.HashSet, m model, last string) (vs []viol, expand bo
 	}
 	// contains and iteration are observers: a wrong answer is reported, the table itself is sound and is explored further
 	// derived objects
+	// a Go panic in one of the derived-object observers must not hide what the lookups of this state already showed
+	defer func() {
+		if p := recover(); p != nil {
+			st := string(debug.Stack())
+			vs = append(vs, viol{sig: fmt.Sprintf("go-api kind=%s go-panic %s", s.k.name, firstFrame(engine.PanicSig(fmt.Sprint(p), st))),
+				detail: fmt.Sprintf("Go panic in an observer (==, +, |, &, clone, copy) after %s: %v\n%s\n%s", last, p, trimStack(st), s.describe(o, m))})
+			expand = true // the table itself passed the state oracles; successors are built by replay on fresh objects
+		}
+	}()
 	all := append([]*setKind{k}, k.peers...)
 	for _, pk := range all {
 		pairName := k.name + " vs " + pk.name
